@@ -45,6 +45,18 @@ func init() {
 		}
 		return out
 	}
+	// recur <program hex> <records> => ok | err | panic | hang: as dslr but in the REAL binary as a
+	// child process, so that a run that never ends can be killed (in-process it would keep eating memory)
+	ops["recur"] = func(a []string) string {
+		r := ops["dsl"]([]string{"put", a[0], hx("{\"x\": 3}\n")})
+		switch {
+		case r == "crash":
+			return "panic"
+		case r == "hang" || r == "err":
+			return r
+		}
+		return "ok"
+	}
 	families["c18fn"] = genC18fn
 	families["c18rd"] = genC18rd
 	families["c18dsl"] = genC18dsl
@@ -56,7 +68,7 @@ var kindArgs = []string{
 	"func(a) {return a}", "func(a,b) {return a . b}",
 	"9223372036854775807", "-9223372036854775807 - 1", "0", "-1", "1e308", "-0.0", "0x7fffffffffffffff", "1.5e-320",
 	`"%d"`, `"%s%s%s"`, `"%"`, `"("`, `"[a-"`, `"\."`, `"%Y-%m-%dT%H:%M:%SZ"`, `"héllo"`, `"\xff\xfe"`, `"1,2;3"`, `"-5"`, "[]", "{}", `[1,[2,[3]]]`,
-	`{"a":{"b":[1,{"c":2}]}}`, "1000000", "-1000000", `"Asia/Istanbul"`, `"nosuch/zone"`,
+	`{"a":{"b":[1,{"c":2}]}}`, `[1, @nosuch, ("a" + 1)]`, `{"a": ("a" + 1)}`, "1000000", "-1000000", `"Asia/Istanbul"`, `"nosuch/zone"`,
 }
 
 func fnArities(name string) []int {
@@ -294,8 +306,8 @@ func genC18dsl(r *rng, thorough bool) {
 	}
 	// deep nesting and long inputs
 	gen("dslr " + hx("$y = "+strings.Repeat("(", 3000)+"1"+strings.Repeat(")", 3000)) + " " + enc)
-	gen("dslr " + hx("$y = "+strings.Repeat("[", 2000)+"1"+strings.Repeat("]", 2000)) + " " + enc)
+	gen("dslr " + hx("$y = "+strings.Repeat("[", 600)+"1"+strings.Repeat("]", 600)) + " " + enc)
 	gen("dslr " + hx("$y = "+strings.Repeat("-", 5000)+"1") + " " + enc)
-	gen("dslr " + hx("func f(n) { return f(n+1) } $y = f(1)") + " " + enc)
+	gen("recur " + hx("func f(n) { return f(n+1) } $y = f(1)") + " " + enc)
 	gen("dslr " + hx(strings.Repeat("$y = 1;", 5000)) + " " + enc)
 }
